@@ -11,17 +11,48 @@ from ..gen import netgen
 from ..oracles import balance
 
 PROPERTY = "C19"
-READY = False
-NOT_READY_REASON = "under construction"
-TECHNIQUE = ("runtime monitoring: measurements copied from a converged power flow on observable-by-construction sets; the "
+READY = True
+TECHNIQUE = ("runtime monitoring: exact measurements copied from a converged power flow on observable-by-construction sets; the "
              "estimate is compared with that power flow (truth model), bad-data tests must flag nothing")
 LEVEL = "exploration"
-CASES = {"quick": 400, "thorough": 12000}
+CASES = {"quick": 640, "thorough": 16000}
 BUDGET = {"quick": 60, "thorough": 1200}
 CASE_TIMEOUT = 60
-FLOORS = {"quick": {"nontrivial": 100, "max_skip_frac": 0.3}, "thorough": {"nontrivial": 3000, "max_skip_frac": 0.3}}
-RULE = ""
-ASSUMPTIONS = []
+FLOORS = {"quick": {"nontrivial": 300, "max_skip_frac": 0.15,
+                    "tags": {"estimate_ok": 300, "mode:inj": 80, "mode:tree": 80, "mode:mixed": 80, "i_meas": 150, "t3_meas": 100,
+                             "fused_buses": 120, "init:results": 60, "init:flat": 250, "alg:irwls": 40,
+                             "zero_injection:zero_pwr_bus": 50, "zero_inj_unmeasured": 15, "multi_island": 10, "red:1.0": 80, "truth_start": 60},
+                    "extras": {"chi2_tests": 80, "rn_max_tests": 35}},
+          "thorough": {"nontrivial": 8000, "max_skip_frac": 0.15,
+                       "tags": {"estimate_ok": 8000, "mode:inj": 2000, "mode:tree": 2000, "mode:mixed": 2000, "i_meas": 4000,
+                                "t3_meas": 2500, "fused_buses": 3000, "init:results": 1500, "alg:irwls": 1000,
+                                "zero_injection:zero_pwr_bus": 1200, "zero_inj_unmeasured": 400, "multi_island": 250, "truth_start": 1500},
+                       "extras": {"chi2_tests": 2000, "rn_max_tests": 800}}}
+RULE = ("one case = one seeded random network (netgen profiles simple/full_mix/weakly_meshed/transmission/dist_radial/multi_island "
+        "without shunt-type elements) + converged runpp + one measurement set copied from its result tables: mode inj (p,q injection "
+        "of every bus group + voltages), tree (p,q flows on a random spanning tree of lines/trafos/trafo3w sides, random side, + "
+        "voltage per island) or mixed (every node covered by the flow on its parent branch or by its own injection), plus random "
+        "redundancy (more injections, flows incl. current magnitudes on both sides, voltages), random order, random std_dev; options "
+        "init flat/results, algorithm wls/irwls, zero_injection aux_bus/zero_pwr_bus/no_inj_bus, tolerance. Non-trivial = estimate "
+        "judged against the power flow; distinct = digest of the net incl. the measurement table and options")
+ASSUMPTIONS = [
+    "trusted base: runpp result tables (C01/C02 monitors); bus injections are taken from the element result tables",
+    "equality tolerances: vm 1e-6 p.u., va 1e-4 degree, p/q flows and bus powers 1e-4 MVA (measured noise on held cases: 3e-10, 6e-8, "
+    "7e-7); power flow solved to 1e-9 MVA, estimator tolerance 1e-6 or 1e-8 on the state update",
+    "observability is certified by construction (spanning-tree assignment of flows/injections, at least one voltage per island; "
+    "injection-only sets carry voltage measurements at >= half of the buses); std_dev between 0.1 % and 3 % of the per-unit base",
+    "current magnitudes are only added on branch sides that also carry p and q (|I| alone is sign-ambiguous)",
+    "Gauss-Newton is a local method and |I| rows make the objective non-convex: if the estimate diverges or stops in another "
+    "stationary point while the same set without |I| rows and/or from init='results' reproduces the power flow, the case is skipped "
+    "(flat_start_* / i_meas_*), bounded by max_skip_frac; in truth_start cases (init='results', no shift in net.trafo, so the "
+    "iteration starts at the power-flow solution) there is no such escape and every deviation is a violation",
+    "bad-data tests only on redundant sets (m >= n + 5), remove_bad_data only on fully redundant sets without single-node islands "
+    "(no critical measurement) and without open-ended lines (their virtual sigma=1e-6 measurements are almost critical), both with "
+    "tolerance=1e-10 because the residual they test belongs to the last but one iterate",
+    "power flows with a bus voltage outside 0.8..1.25 p.u. are skipped (collapsed operating points make the gain matrix singular)",
+    "out of domain (documented as approximate or not triaged): algorithm opt/lp/af-wls/wls_with_zero_constraint, "
+    "fuse_buses_with_bb_switch != 'all', shunt/ward/xward at measured buses, init='slack'",
+]
 
 OVR = dict(shunt=0., ward=0., xward=0., dcline=0., z_sw=0., asym=0., slack_gen=0.)
 PROFILES = ["simple", "full_mix", "weakly_meshed", "transmission", "dist_radial", "multi_island"]
@@ -273,6 +304,16 @@ def compare(net, truth, tol_v, tol_a, tol_s):
         out.append(("res_bus_est.vm_pu", float(np.nanmax(dv)) if np.isfinite(dv).any() else float("nan")))
     if not np.all(np.isfinite(da)) or da.max() > tol_a:
         out.append(("res_bus_est.va_degree", float(np.nanmax(da)) if np.isfinite(da).any() else float("nan")))
+    # bus powers: per fused bus group the estimated consumption equals the consumption of the elements (no shunts in these nets)
+    inj, _ = balance.element_consumption(truth, True)
+    node, _ = topology(truth)
+    grp_true, grp_est = {}, {}
+    for b, n in node.items():
+        grp_true[n] = grp_true.get(n, 0j) + inj.at[b]
+        grp_est[n] = grp_est.get(n, 0j) + complex(est.p_mw.at[b], est.q_mvar.at[b])
+    dS = max(abs(grp_true[n] - grp_est[n]) for n in grp_true)
+    if not np.isfinite(dS) or dS > tol_s:
+        out.append(("res_bus_est.p_mw/q_mvar (sum per fused group)", float(dS)))
     for et, (tab, cols) in RES.items():
         if not len(net[et]):
             continue
@@ -334,21 +375,14 @@ def t3_mismapped(net, meas):
     return bad
 
 
-def no_inj_mask_misaligned(net):
-    """re-evaluates the expression of ppc_conversion._add_zero_injection ('no_inj_bus' branch) on the input tables: it combines a
-    Series indexed by element labels with one indexed by bus labels, so the boolean mask does not fit the element table"""
-    for element in ["load", "motor", "sgen", "storage", "ward", "xward", "asymmetric_load", "asymmetric_sgen"]:
-        tab = net[element]
-        if len(tab) == 0:
-            continue
-        try:
-            in_service = (tab["in_service"]) & (net.bus["in_service"][tab["bus"].values])
-            tab["bus"][in_service]
-        except IndexError:
-            return True
-        except Exception:  # noqa
-            return False
-    return False
+def raised_in(exc, func_name):
+    """True iff the innermost pandapower frame of the traceback of exc belongs to function func_name"""
+    tb, name = exc.__traceback__, None
+    while tb is not None:
+        if "pandapower" in tb.tb_frame.f_code.co_filename:
+            name = tb.tb_frame.f_code.co_name
+        tb = tb.tb_next
+    return name == func_name
 
 
 def call(fn, net, shim, **kw):
@@ -360,17 +394,24 @@ def call(fn, net, shim, **kw):
             return "exc", e
 
 
-def run_case(seed, tier, case_no):
+def build_case(seed):
+    """(status, net with converged power flow, profile, mode, opts, measurement list, order, info)"""
     g = netgen.G(seed)
     profile = g.C(PROFILES)
     net = netgen.rnd_net(seed, profile, OVR)
+    no_shift = g.B(0.35)
+    if no_shift:
+        # without vector-group shifts in net.trafo the estimator does not re-initialise the angles by a DC power flow, so
+        # init="results" starts exactly at the power-flow solution (truth start)
+        net.trafo["shift_degree"] = 0.
+        net.trafo["tap_step_degree"] = 0.
     status, exc = pf.try_run(pp.runpp, net, tolerance_mva=1e-9, calculate_voltage_angles=True)
-    sample = {"profile": profile, "net": netgen.describe(net)}
-    tags = {"profile:" + profile}
+    if status == "ok" and not (net.res_bus.vm_pu.dropna().between(0.8, 1.25)).all():
+        status = "abnormal_voltage"          # collapsed / alternate-root operating points: singular gain matrix
     if status != "ok":
-        return common.case(common.net_digest(net), nontrivial=False, tags=tags, skipped="pf_" + status, sample=sample)
+        return status, net, profile, None, None, None, None, None
     mode = g.C(["inj", "tree", "mixed"])
-    opts = {"init": g.C(["flat", "flat", "flat", "results"])}
+    opts = {"init": g.C(["flat", "results"] if no_shift else ["flat", "flat", "flat", "results"])}
     if g.B(0.3):
         opts["zero_injection"] = g.C(["zero_pwr_bus", "no_inj_bus"])
     if g.B(0.2):
@@ -383,6 +424,15 @@ def run_case(seed, tier, case_no):
         mode = "inj"
         meas, info = build_measurements(net, g, mode, auto_zero)
     order = g.rng.permutation(len(meas)) if g.B(0.7) else np.arange(len(meas))
+    return status, net, profile, mode, opts, meas, order, info
+
+
+def run_case(seed, tier, case_no):
+    status, net, profile, mode, opts, meas, order, info = build_case(seed)
+    sample = {"profile": profile, "net": netgen.describe(net)}
+    tags = {"profile:" + profile}
+    if status != "ok":
+        return common.case(common.net_digest(net), nontrivial=False, tags=tags, skipped="pf_" + status, sample=sample)
     sample.update(mode=mode, options=opts, **info)
     tags |= {"mode:" + mode, "init:" + opts["init"], "red:%s" % info["red"], "alg:" + opts.get("algorithm", "wls"),
              "zero_injection:" + opts.get("zero_injection", "aux_bus")}
@@ -420,9 +470,10 @@ def run_case(seed, tier, case_no):
                 tags.add("numpy_shim")
                 state["shim"] = True
                 continue
-            if st == "exc" and isinstance(res, IndexError) and kw.get("zero_injection") == "no_inj_bus" and no_inj_mask_misaligned(truth):
+            if st == "exc" and isinstance(res, IndexError) and kw.get("zero_injection") == "no_inj_bus" and \
+                    raised_in(res, "_add_zero_injection"):
                 viols.append(common.viol("estimate() raises IndexError: %s with zero_injection='no_inj_bus'" % res,
-                                         mechanism="no_inj_bus_mask_misaligned", **wit))
+                                         mechanism="no_inj_bus_index_error", **wit))
                 tags.add("no_inj_bus_indexerror")
                 kw["zero_injection"] = "zero_pwr_bus"      # selects the same buses for these inputs; keep monitoring
                 continue
@@ -446,42 +497,58 @@ def run_case(seed, tier, case_no):
         return None
 
     j = judge(st, res, net)
+    truth_start = opts["init"] == "results" and not np.any(truth.trafo.shift_degree.values)
+    if truth_start:
+        tags.add("truth_start")
+    if j is not None and j[0] in ("fail", "diff") and not truth_start:
+        # Gauss-Newton is a local method: from a flat (or DC re-initialised) start it may diverge or stop in another stationary
+        # point, and current magnitudes make the objective non-convex. Such outcomes are numerical, like alternate power-flow
+        # roots: the case is skipped if the same set is estimated correctly without |I| rows and/or from init="results".
+        # (the measurement model itself is judged without this escape in the truth_start cases)
+        has_i = any(m[0] == "i" for m in meas)
+        variants = []
+        if has_i:
+            variants.append(("i_meas", [k for k in order if meas[int(k)][0] != "i"], opts))
+        if opts["init"] == "flat":
+            variants.append(("flat_start", order, dict(opts, init="results")))
+            if has_i:
+                variants.append(("flat_start_i_meas", variants[0][1], dict(opts, init="results")))
+        for name, sel, o2 in variants:
+            n2 = copy.deepcopy(truth)
+            write_measurements(n2, meas, sel)
+            st2, res2 = attempt(estimate, n2, **o2)
+            j2 = judge(st2, res2, n2)
+            if j2 is None:
+                tags.add(name + "_" + j[0])
+                return done(skipped=name + ("_not_converged" if j[0] == "fail" else "_other_stationary_point"))
+        j = (j[0], j[1] + " (also without current magnitudes / from init='results')")
     if j is not None and bad_t3:
         viols.append(common.viol(j[1] + " (measurements on three-winding transformers are assigned to wrong branches)",
                                  mechanism="trafo3w_meas_wrong_branch_when_side_inactive", mismapped=bad_t3, **wit))
         return done()
-    if j is not None and j[0] in ("fail", "diff") and opts["init"] == "flat":
-        # Gauss-Newton from a flat start may diverge or end in another stationary point (numerical method, like alternate
-        # power-flow roots); the measurement model is still judged from the documented init="results" start
-        n2 = copy.deepcopy(truth)
-        write_measurements(n2, meas, order)
-        o2 = dict(opts, init="results")
-        st2, res2 = attempt(estimate, n2, **o2)
-        j2 = judge(st2, res2, n2)
-        if j2 is None:
-            tags.add("flat_start_" + j[0])
-            return done(skipped="flat_start_" + ("not_converged" if j[0] == "fail" else "other_stationary_point"))
-        j = (j2[0], j2[1] + " (init='results'; flat start: %s)" % j[1])
     if j is not None:
-        viols.append(common.viol(j[1] + " on an observable exact measurement set", **wit))
+        viols.append(common.viol(j[1] + " on an observable exact measurement set", truth_start=truth_start, **wit))
         return done()
     tags.add("estimate_ok")
     # ---- bad data tests on the same exact, redundant set (WLS): nothing may be flagged
+    # (tolerance 1e-10: both tests use the residual of the last but one iterate; virtual measurements of open-ended lines carry
+    # sigma = 1e-6 and are almost critical, which makes the normalised residual test numerically fragile -> excluded there)
     n_state = 2 * (int(truth.res_bus.vm_pu.notna().sum()) + len(truth.trafo3w) + len(truth.line))
+    sw = truth.switch
+    open_ended = bool(len(sw) and (~sw.closed & (sw.et == "l")).any())
     if opts.get("algorithm", "wls") == "wls" and "zero_injection" not in opts and len(meas) >= n_state + 5:
         n3 = copy.deepcopy(truth)
         write_measurements(n3, meas, order)
-        st3, flagged = attempt(chi2_analysis, n3, init=opts["init"], maximum_iterations=50)
+        st3, flagged = attempt(chi2_analysis, n3, init=opts["init"], maximum_iterations=50, tolerance=1e-10)
         extra["chi2_tests"] = 1
         if st3 == "exc":
             viols.append(common.viol("chi2_analysis() raised %s: %s" % (type(flagged).__name__, flagged), **wit))
         elif flagged is not False:
             viols.append(common.viol("chi2_analysis() returned %r (bad data detected) on exact measurements" % (flagged,), **wit))
-        if info["red"] == 1.0 and info["min_island_nodes"] >= 2:      # no critical measurement in such a set
+        if info["red"] == 1.0 and info["min_island_nodes"] >= 2 and not open_ended:      # no critical measurement in such a set
             n4 = copy.deepcopy(truth)
             write_measurements(n4, meas, order)
-            globals()['LAST'] = copy.deepcopy(n4)
-            st4, good = attempt(remove_bad_data, n4, init=opts["init"], maximum_iterations=50)
+            st4, good = attempt(remove_bad_data, n4, init=opts["init"], maximum_iterations=50, tolerance=1e-10)
             extra["rn_max_tests"] = 1
             if st4 == "exc":
                 viols.append(common.viol("remove_bad_data() raised %s: %s" % (type(good).__name__, good), **wit))
